@@ -26,10 +26,38 @@ type memConn struct {
 	net.Conn
 	in, out *bytes.Buffer
 	writes  int
+	rec     *bytes.Buffer // when set: everything this end ever wrote (out is drained by the peer)
 }
 
-func (m *memConn) Read(p []byte) (int, error)  { return m.in.Read(p) }
-func (m *memConn) Write(p []byte) (int, error) { m.writes++; return m.out.Write(p) }
+func (m *memConn) Read(p []byte) (int, error) { return m.in.Read(p) }
+func (m *memConn) Write(p []byte) (int, error) {
+	m.writes++
+	if m.rec != nil {
+		m.rec.Write(p)
+	}
+	return m.out.Write(p)
+}
+
+// strictFrames: b is a concatenation of frames in the protocol's layout - declared length = payload + 10 and the
+// two bytes that end every frame are zero (a reader that ignores the terminator would not notice otherwise)
+func strictFrames(b []byte) (int, string) {
+	k := 0
+	for len(b) > 0 {
+		if len(b) < 4 {
+			return k, "dangling length field"
+		}
+		l := int64(int32(binary.LittleEndian.Uint32(b)))
+		if l < refMinLen || int64(len(b)-4) < l {
+			return k, fmt.Sprintf("declared length %d with %d bytes behind it", l, len(b)-4)
+		}
+		if b[4+l-2] != 0 || b[4+l-1] != 0 {
+			return k, fmt.Sprintf("terminator %02x%02x", b[4+l-2], b[4+l-1])
+		}
+		b = b[4+l:]
+		k++
+	}
+	return k, ""
+}
 func (m *memConn) Close() error                { return nil }
 
 func newMem(in []byte) *memConn {
@@ -393,8 +421,9 @@ func (e event) tok() string {
 
 func sess(o *hx.Out, cat string, id, sid0 int32, evs []event) {
 	c2s, s2c := &bytes.Buffer{}, &bytes.Buffer{}
-	cl := &mcnet.RCONConn{Conn: &memConn{in: s2c, out: c2s}, ReqID: id}
-	sv := &mcnet.RCONConn{Conn: &memConn{in: c2s, out: s2c}, ReqID: sid0}
+	clw, svw := &bytes.Buffer{}, &bytes.Buffer{}
+	cl := &mcnet.RCONConn{Conn: &memConn{in: s2c, out: c2s, rec: clw}, ReqID: id}
+	sv := &mcnet.RCONConn{Conn: &memConn{in: c2s, out: s2c, rec: svw}, ReqID: sid0}
 	var obs []string
 	// reference: two queues of messages; valid while every frame on the wire came from this library,
 	// fits the limit and carries the client's id
@@ -498,6 +527,16 @@ func sess(o *hx.Out, cat string, id, sid0 int32, evs []event) {
 	}
 	if cl.ReqID != id {
 		o.Fail("C16.session", "client request id changed %d -> %d", id, cl.ReqID)
+	}
+	// predicate: whatever this library wrote on either side during the session, frame after frame on one
+	// connection object, is in the protocol's layout (two terminating zero bytes included)
+	for _, w := range []struct {
+		side string
+		b    []byte
+	}{{"client", clw.Bytes()}, {"server", svw.Bytes()}} {
+		if k, why := strictFrames(w.b); why != "" {
+			o.Fail("C16.wire.layout", "%s wrote frame %d of session id=%d evs=%.200s badly: %s", w.side, k, id, strings.Join(toks, " "), why)
+		}
 	}
 }
 
